@@ -13,7 +13,7 @@ From Coq Require Import ZArith List Bool.
 From Common Require Import Res Str.
 From Routing Require Import Model Scheme Obs Spec Obs Proofs_Tables Proofs_Group Proofs_Merge Proofs_Library Proofs_Ops
      Proofs_Routing Proofs_Witness Proofs_Frame Proofs_Sets Proofs_Scheme Proofs_Trace Proofs_Single Proofs_Examples Proofs_Modulo
-     Validation Front ObsFront Proofs_Validation Proofs_Front Proofs_Answers.
+     Validation Front ObsFront Proofs_Validation Proofs_Front Proofs_Answers Proofs_Events.
 Import ListNotations.
 Open Scope Z_scope.
 
@@ -710,3 +710,20 @@ Theorem C09_mixer_answers_are_validation : forall key_text r,
   (mute_answer_ok r = true <-> r = RNone \/ check_instance (resp_val key_text r) TBool = Ok tt).
 Proof. exact mixer_answers_are_validation. Qed.
 Print Assumptions C09_mixer_answers_are_validation.
+
+(* ---- core events: only validated answers are broadcast (events_spec is what the harness checks
+        the events recorded at mopidy.listener.send against) *)
+Theorem C09_playlist_changed_is_validated : forall T P mx o evs id,
+  events_spec P o (run_op T P mx o) = Some evs -> In (EvPlaylistChanged id) evs ->
+  snd (run_op T P mx o) = Ok (VVal CPlaylist id) /\
+  exists b m a, In (Bk b, m, a) (fst (run_op T P mx o)) /\ (m = PCreate \/ m = PSave) /\
+                ans P b m a = RVal CPlaylist id.
+Proof. exact playlist_changed_is_validated. Qed.
+Print Assumptions C09_playlist_changed_is_validated.
+
+Theorem C09_save_discarded_answer_not_broadcast : forall T P mx u n b,
+  tget (t_playlists T) (u_scheme u) = Some b ->
+  (forall id, ans P b PSave (APlaylist u n) <> RVal CPlaylist id) ->
+  events_spec P (OSave (Some u) n) (run_op T P mx (OSave (Some u) n)) = Some [].
+Proof. exact save_discarded_answer_not_broadcast. Qed.
+Print Assumptions C09_save_discarded_answer_not_broadcast.
